@@ -65,6 +65,12 @@ func capsOf(s scn) []string {
 	if s.adv&2 != 0 {
 		caps = append(caps, dev.Cap11) // 1.1 last so that order matters
 	}
+	if s.extra == "rev" {
+		// and the other order: 1.1 listed first
+		for i, j := 0, len(caps)-1; i < j; i, j = i+1, j-1 {
+			caps[i], caps[j] = caps[j], caps[i]
+		}
+	}
 	return caps
 }
 
@@ -286,7 +292,7 @@ func scenarios(tier string) []sched.Scenario {
 	for adv := 0; adv < 4; adv++ {
 		for _, pref := range []string{"", "1.0", "1.1"} {
 			for _, lay := range layouts {
-				for _, extra := range []string{"none", "many", "amp"} {
+				for _, extra := range []string{"none", "many", "amp", "rev"} {
 					for _, sid := range []string{"", "1", "4294967295"} {
 						for _, echo := range []bool{false, true} {
 							for _, mc := range []int{0, 1, 7} {
@@ -320,7 +326,7 @@ func TestCheck(t *testing.T) {
 	sched.Main(t, sched.Check{
 		ID:          "C09",
 		Level:       "exploration",
-		Rule:        "exhaustive product: advertised subset of {base:1.0, base:1.1} x preferred {none,1.0,1.1} x hello layout {compact, pretty, padded capability text, nc: prefix, XML declaration, banner first, line feed after the delimiter} x extra capabilities {none, 15, one with &amp;} x session-id {absent, 1, 4294967295} x echo x read preset {whole, 1, 7 bytes} (+ every single extra cut/hold on the whole-message preset), plus non-hello first message and hello without capabilities; each cell = Open + Get on the real driver against the server model; distinct = distinct (cell, schedule, observation)",
+		Rule:        "exhaustive product: advertised subset of {base:1.0, base:1.1} x preferred {none,1.0,1.1} x hello layout {compact, pretty, padded capability text, nc: prefix, XML declaration, banner first, line feed after the delimiter} x extra capabilities {none, 15, one with &amp;, none with base:1.1 listed first} x session-id {absent, 1, 4294967295} x echo x read preset {whole, 1, 7 bytes} (+ every single extra cut/hold on the whole-message preset), plus non-hello first message and hello without capabilities; each cell = Open + Get on the real driver against the server model; distinct = distinct (cell, schedule, observation)",
 		Assumptions: []string{"capability text compared after trimming whitespace; XML-escaped text accepted as equal to its unescaped form", "silence instead of a hello is C05's case"},
 		Scenarios:   scenarios,
 		Budget:      map[string]time.Duration{"quick": 5 * time.Minute, "thorough": 30 * time.Minute},
